@@ -100,6 +100,9 @@ def gen_pairs(ctx):
         if rng.random() < 0.3:   # prediction spanning several references
             p = np.where(r != 0, 1, p).astype(p.dtype)
         pairs.append((p, r))
+    # label magnitudes at which the integer code of a (prediction, reference) pair crosses 2^8 / 2^16 / 2^32
+    for _ in range(ctx.scale(24, 200)):
+        pairs.append(impl.code_boundary_pair(rng))
     return pairs
 
 
